@@ -354,3 +354,20 @@ Proof.
       * rewrite (writeToSeq_exact _ s _ off [] Hnf Hm Hp) by lia. reflexivity.
   - rewrite (writeToSeq_exact _ s _ off [] Hnf Hm Hp) by lia. reflexivity.
 Qed.
+
+(* whatever size STAT reports - the true one, 0, too small, too large - WriteTo delivers exactly the rest of the file *)
+Theorem writeToS_exact : forall o s regular statsize off,
+  no_rfail s -> 1 <= maxTx s -> 1 <= maxPacket o ->
+  (concReads o = true -> regular = true -> maxPacket o < statsize -> maxPacket o <= maxTx s) ->
+  writeToS o s regular statsize off = (skipn off (file s), None, Nat.max off (length (file s))).
+Proof.
+  intros o s regular statsize off Hnf Hm Hp Hc. unfold writeToS.
+  destruct (concReads o) eqn:Ec; cbn [negb].
+  - destruct (statsize <=? maxPacket o) eqn:E1; cbn [orb].
+    + rewrite (writeToSeq_exact _ s _ off [] Hnf Hm Hp) by lia. reflexivity.
+    + destruct regular; cbn [negb].
+      * apply Nat.leb_gt in E1. rewrite (writeToConc_exact _ s _ off [] off Hnf) by (try split; try lia; apply Hc; auto).
+        cbn [app]. f_equal. destruct (length (file s) <=? off) eqn:E; [apply Nat.leb_le in E | apply Nat.leb_gt in E]; lia.
+      * rewrite (writeToSeq_exact _ s _ off [] Hnf Hm Hp) by lia. reflexivity.
+  - rewrite (writeToSeq_exact _ s _ off [] Hnf Hm Hp) by lia. reflexivity.
+Qed.
